@@ -13,7 +13,10 @@
     P   proved on the validity domain
     P°  proved on the domain when the collection operand has no areal member (`thin`), else OPEN
     O   open (correspondence only); every bounding-box early return on the path is proved sound
-        (`disjointBB_sound_point` / `disjointBB_sound_spec` / `polyPoly_shortcut_sound`)
+        (`disjointBB_sound_point` / `disjointBB_sound_spec` / `polyPoly_shortcut_sound`); for the areal pairs one
+        direction is proved (`intersectsM_areal_sound`: `true` ⇒ the mask holds), what the body computes is characterised
+        exactly (`polyPoly_iff_boundary`), and the equality is proved modulo one named step
+        (`intersectsM_polygon_polygon_partial`)
 
   ──────────────────────────────────────────────────────────────────────────────────────────────────────────────
   INTERSECTS   `intersectsM a b`: the left operand is split into pieces, each piece asks `Y: Intersects<piece>`
@@ -64,7 +67,9 @@
                                any ==, mlsContainsPoint, any polyContainsCoord, rectContainsCoord, triContainsCoord,
                                any member)                                        P   `containsM_geom_point`
                                (and `Point.is_within(a)`:                         P   `withinM_point_geom`)
-  a = Pt, b ≠ Pt (9 cells)     `pointContains p b` ("b non-empty, every coordinate = p")      O
+  a = Pt, b ≠ Pt (9 cells)     `pointContains p b` ("b non-empty, every coordinate = p")      O  (would follow from the containment
+                               analogue of `isIntersects_iff_common_point`: "`EI = EB = F` ⇔ every point of b lies in a"; that needs
+                               a real point beside a face sample, not attempted)
   Ln × Ln                      `lineContainsLine`      O as a mask; point-set form P* (`lineContainsLine_iff_subset`,
                                                        `lineContainsLine_degenerate`)
   Ln × LS, LS × Ln, LS × LS    `lineContainsLineString`, `lsContainsLine`, `lsContainsLs`     O
